@@ -36,7 +36,7 @@ def main():
     patches = []
     for a in sys.argv[1:]:
         p = Path(a)
-        patches += sorted(p.glob("patch_*.diff")) if p.is_dir() else [p]
+        patches += sorted(p.glob("*.diff")) if p.is_dir() else [p]
     bad = 0
     with ThreadPoolExecutor(max_workers=8) as ex:
         for patch, status, lines in ex.map(one, patches):
